@@ -51,16 +51,16 @@ Proof. exact vshape_deactivated. Qed.
 Print Assumptions C04_deactivated.
 
 (* Non-vacuity: sh:not inside sh:or inside a qualified value shape, with a deactivated member. *)
-Definition L1 : shape := {| sid := IRI 201; spath := None; deact := false; ssev := t_Warning; stargets := no_targets; scomps := [CLeaf (LIn [IRI 2])] |}.
-Definition L2 : shape := {| sid := IRI 202; spath := None; deact := true; ssev := t_Violation; stargets := no_targets; scomps := [CLeaf (LIn [])] |}.
-Definition NOT1 : shape := {| sid := BN 3; spath := None; deact := false; ssev := t_Violation; stargets := no_targets; scomps := [CNot [IRI 201]] |}.
-Definition OR1 : shape := {| sid := BN 2; spath := None; deact := false; ssev := t_Violation; stargets := no_targets; scomps := [COr [[BN 3; IRI 202]]] |}.
-Definition Q : shape := {| sid := BN 1; spath := Some (PPred 50); deact := false; ssev := t_Info; stargets := no_targets;
+Definition L1 : shape := {| sid := IRI 201; spath := None; deact := false; ssev := t_Warning; smsgs := []; stargets := no_targets; scomps := [CLeaf (LIn [IRI 2])] |}.
+Definition L2 : shape := {| sid := IRI 202; spath := None; deact := true; ssev := t_Violation; smsgs := []; stargets := no_targets; scomps := [CLeaf (LIn [])] |}.
+Definition NOT1 : shape := {| sid := BN 3; spath := None; deact := false; ssev := t_Violation; smsgs := []; stargets := no_targets; scomps := [CNot [IRI 201]] |}.
+Definition OR1 : shape := {| sid := BN 2; spath := None; deact := false; ssev := t_Violation; smsgs := []; stargets := no_targets; scomps := [COr [[BN 3; IRI 202]]] |}.
+Definition Q : shape := {| sid := BN 1; spath := Some (PPred 50); deact := false; ssev := t_Info; smsgs := []; stargets := no_targets;
                            scomps := [CQualified [BN 2] (Some 3%Z) None false] |}.
-Definition TOP : shape := {| sid := IRI 200; spath := None; deact := false; ssev := t_Violation;
+Definition TOP : shape := {| sid := IRI 200; spath := None; deact := false; ssev := t_Violation; smsgs := [];
    stargets := {| t_nodes := [IRI 1]; t_classes := []; t_implicit := false; t_subjects_of := []; t_objects_of := [] |};
    scomps := [CProperty [BN 1]] |}.
 Example C04_nonvacuous :
   validate_impl0 default_opts [] [(IRI 1, IRI 50, IRI 2); (IRI 1, IRI 50, IRI 3)] [TOP; Q; OR1; NOT1; L1; L2]
-  = Ok (false, [VR (IRI 1) None (Some (IRI 50)) sh_QualifiedMinCountConstraintComponent (BN 1) t_Info []]).
+  = Ok (false, [VR (IRI 1) None (Some (IRI 50)) sh_QualifiedMinCountConstraintComponent (BN 1) t_Info [] []]).
 Proof. vm_compute. reflexivity. Qed.
